@@ -320,6 +320,11 @@ impl<'a, 'tcx> BodyCx<'a, 'tcx> {
         o.push(("ty", t));
         let txt = with_no_trimmed_paths!(format!("{}", c.const_));
         o.push(("text", s(txt)));
+        if c.span.from_expansion() {
+            // a literal produced by a macro (cfg!(debug_assertions) becomes `true`/`false`): keep where it came from
+            let sp = self.cx.span(c.span);
+            o.push(("span", sp));
+        }
         if let ty::FnDef(did, args) = cty.kind() {
             o.push(("fn", s(self.cx.path(*did))));
             o.push(("fn_args", s(self.cx.path_with_args(*did, args))));
